@@ -1,14 +1,18 @@
-From TN Require Export Harness.HBase Sem.Fast Model.Anova.
+From TN Require Export Harness.HBase Sem.Fast Model.Anova Model.Sobol.
 From Coq Require Import QArith.
 Inductive op10 :=
 | OExtended (t : tensor QO) (ws : list (list Q))     (* tn.anova_decomposition(t, marginals): normalised weights *)
-| OUndo (t : tensor QO) (ws : list (list Q)).        (* tn.undo_anova_decomposition(tn.anova_decomposition(t)) *)
+| OUndo (t : tensor QO) (ws : list (list Q))         (* tn.undo_anova_decomposition(tn.anova_decomposition(t)) *)
+| OTruncate (t : tensor QO) (ws : list (list Q)) (m : tensor QO).   (* undo(tn.mask(anova(t), m)) = truncate_anova(keepdim=True) *)
 Record case := mkCase { c_op : op10; c_shape : list nat; c_dense : list Q }.
 Definition wfun (w : list Q) : nat -> Q := fun j => nth j w 0%Q.
 Definition run (o : op10) : list (score QO) :=
   match o with
   | OExtended t ws => anova_net (K:=QO) (map wfun ws) (sem t)
   | OUndo t ws => undo_net (anova_net (K:=QO) (map wfun ws) (sem t))
+  | OTruncate t ws m =>
+      let a := anova_net (K:=QO) (map wfun ws) (sem t) in
+      match mul_net a (mask_ext (sem m) (sshape a)) with Some am => undo_net am | None => [] end
   end.
 Definition check (c : case) : bool :=
   let cs := run (c_op c) in
